@@ -56,7 +56,7 @@ pub fn stark_verify<Layout: LayoutTrait>(
         &points,
         &witness.traces_decommitment,
         &witness.composition_decommitment,
-    );
+    )?;
 
     // Decommit FRI.
     let fri_decommitment = types::Decommitment { values: oods_poly_evals, points };
@@ -77,6 +77,9 @@ pub enum Error {
 
     #[error("TableDecommit Error")]
     TableDecommitError(#[from] swiftness_commitment::table::decommit::Error),
+
+    #[error("OodsEval Error")]
+    OodsEvalError(#[from] crate::oods::OodsEvalError),
 }
 
 #[cfg(not(feature = "std"))]
@@ -93,4 +96,7 @@ pub enum Error {
 
     #[error("TableDecommit Error")]
     TableDecommitError(#[from] swiftness_commitment::table::decommit::Error),
+
+    #[error("OodsEval Error")]
+    OodsEvalError(#[from] crate::oods::OodsEvalError),
 }
